@@ -87,8 +87,10 @@ class C10(InterpProp):
         e1, e2 = ChartEnc(sc), ChartEnc(prop)
         ops1 = gen.gen_ops(rnd, kn, self.n_ops)
         ign = rnd.random() < 0.25        # the monitored interpreter may well ignore contracts
+        twice = rnd.random() < 0.15
+        # (the same recording callable may be attached twice: it then hears of everything twice)
         ops = [['create', 0, ign, [], 0], ['create', 0, ign, [], 0],
-               ['attach', 0, 0], ['bindprop', 0, 1], ['attach', 0, 1]]
+               ['attach', 0, 0]] + ([['attach', 0, 0]] if twice else []) + [['bindprop', 0, 1], ['attach', 0, 1]]
         for op in ops1:
             ops.append(op)
             op2 = list(op)
@@ -103,7 +105,8 @@ class C10(InterpProp):
     def shrink_candidates(self, case):
         p = case.payload
         ops = p['ops']
-        for i in range(len(ops) - 2, 4, -2):
+        n0 = 6 if ops[3][0] == 'attach' else 5
+        for i in range(len(ops) - 2, n0 - 1, -2):
             q = copy.deepcopy(p)
             del q['ops'][i:i + 2]
             yield q
@@ -118,7 +121,10 @@ class C10(InterpProp):
         fired = False
         rec = [[], []]
         clean = True
-        for i in range(5, len(ops) - 1, 2):
+        twice = ops[3][0] == 'attach'
+        n0 = 6 if twice else 5
+        dup = (lambda ms: [m for m in ms for _ in (0, 1)]) if twice else (lambda ms: list(ms))
+        for i in range(n0, len(ops) - 1, 2):
             a, b = obs['obs'][i], obs['obs'][i + 1]
             if ops[i][0] != 'exec' or fired or not clean:
                 continue
@@ -170,7 +176,7 @@ class C10(InterpProp):
                 if ra['eff'] and ra['eff'][-1][0] != 'meta':
                     res.violations.append('op %d: monitored code ran after the property became final: %s' % (i, ra['eff'][-1]))
                 # recorder 0 (attached before the property) saw the event, recorder 1 (after) did not
-                rec[0] += metas
+                rec[0] += dup(metas)
                 rec[1] += metas[:-1]
                 if cb[0] != rec[0] or cb[1] != rec[1]:
                     res.violations.append('op %d: listeners around the failing property did not receive what they should' % i)
@@ -188,10 +194,10 @@ class C10(InterpProp):
                               'data': [['source', tr.source], ['target', tr.target], ['event', e[2]]]}
             if metas != exp:
                 res.violations.append('op %d: meta-events differ from what the MacroStep implies: %s' % (i, engine.diff(metas, exp)))
-            rec[0] += metas
+            rec[0] += dup(metas)
             rec[1] += metas
             if cb[0] != rec[0] or cb[1] != rec[1]:
-                res.violations.append('op %d: a recording listener did not receive every meta-event exactly once in order' % i)
+                res.violations.append('op %d: a recording listener did not receive every meta-event exactly once (per attachment) in order' % i)
             # property clock
             pctx = dict(a['world']['slots'][2]['ctx'])
             if pctx.get('n', 0) > 0 and pctx.get('seen') != t and any(m['ev'] in kinds for m in metas):
